@@ -192,13 +192,64 @@ theorem collect_ignores_rest (c : Nat) : ∀ (evs extra : List Ev) (i : Nat), c 
 theorem facts_guard :
     Gen.Facts.c14MaxConcurrent = some 3 ∧ Gen.Facts.c14QueryTimeoutMs = some 5000 ∧ Gen.Facts.c14ClampShape = some true ∧
     Gen.Facts.c14PickShape = some true ∧ Gen.Facts.c14PrivateCopyPerUpstream = some true ∧
-    Gen.Facts.c14HelperShape = some true ∧ Gen.Facts.c14CollectShape = some true ∧ Gen.Facts.c14TagSubsets = some true := by decide
+    Gen.Facts.c14HelperShape = some true ∧ Gen.Facts.c14CollectShape = some true ∧ Gen.Facts.c14TagSubsets = some true ∧
+    Gen.Facts.c14UpstreamPerEntry = some true ∧ Gen.Facts.c14EntryOptions = some true := by decide
 
 /-- the instance the code runs: `maxConcurrentQueries` read from the source -/
 theorem forward_clamp (c : Int) : 1 ≤ clamp (Gen.Facts.c14MaxConcurrent.getD 0) c ∧ clamp (Gen.Facts.c14MaxConcurrent.getD 0) c ≤ 3 := by
   have : Gen.Facts.c14MaxConcurrent.getD 0 = 3 := by decide
   rw [this]
   exact clamp_range 3 (by omega) c
+
+/-! ## which servers a query reaches (construction of `U`, tag subsets, cyclic selection) -/
+
+/-- what the source says about `NewForward` on this run (T2): one upstream per configured entry, at its
+own position, created from that entry's own options -/
+def perEntryFact : Bool :=
+  Gen.Facts.c14UpstreamPerEntry.getD false && Gen.Facts.c14EntryOptions.getD false
+
+/-- **`U` is the configuration**: position `i` of the list that `NewForward` builds reaches the server that
+the options of entry `i` designate - whatever the other entries are (same `addr`, same anything). Stops
+checking when an entry's upstream no longer comes from its own `NewUpstream(c.Addr, uOpt)` call. -/
+theorem forward_build (targets : List Nat) : build perEntryFact targets = some targets := by
+  have : perEntryFact = true := by decide
+  rw [this]; rfl
+
+/-- exactly `clamp` queries leave, one per helper -/
+theorem contacted_length (maxC : Nat) (s : List Nat) (conc : Int) (r : Nat) :
+    (contacted maxC s conc r).length = clamp maxC conc := by
+  simp [contacted, pick]
+
+/-- **the `i`-th helper's query goes to the server at position `(r + i) mod len` of the list in use** -/
+theorem contacted_get (maxC : Nat) (s : List Nat) (conc : Int) (r i : Nat) (hi : i < clamp maxC conc) :
+    (contacted maxC s conc r)[i]? = some (s.getD ((r + i) % s.length) 0) := by
+  simp [contacted, pick, hi]
+
+/-- **only servers of the list in use are contacted** (a tag subset never reaches an upstream it does not name) -/
+theorem contacted_mem (maxC : Nat) (s : List Nat) (hs : s ≠ []) (conc : Int) (r : Nat) :
+    ∀ x ∈ contacted maxC s conc r, x ∈ s := by
+  intro x hx
+  simp only [contacted, pick, List.map_map, List.mem_map, List.mem_range] at hx
+  obtain ⟨i, _, rfl⟩ := hx
+  have hn : 0 < s.length := List.length_pos_iff.mpr hs
+  have hlt : (r + i) % s.length < s.length := Nat.mod_lt _ hn
+  simp only [Function.comp, List.getD_eq_getElem?_getD, List.getElem?_eq_getElem hlt, Option.getD_some]
+  exact List.getElem_mem hlt
+
+/-- position `k` of a tag subset is the upstream of the `k`-th named entry -/
+theorem inUse_subset_get (u idx : List Nat) (k : Nat) (hk : k < idx.length) :
+    (inUse u (some idx))[k]? = some (u.getD idx[k] 0) := by
+  simp [inUse, hk]
+
+/-- **routing over the regenerated construction**: with `U` built as the source says on this run, the `i`-th of
+the `c` helpers sends the query to the server designated by the own options of the entry at cyclic position
+`r + i` of the list in use (all entries, or the tag subset `sub` in the order of its tags). -/
+theorem route_own_servers (targets : List Nat) (sub : Option (List Nat)) (conc : Int) (r i : Nat)
+    (hi : i < clamp (Gen.Facts.c14MaxConcurrent.getD 0) conc) :
+    ∃ u, build perEntryFact targets = some u ∧
+      (contacted (Gen.Facts.c14MaxConcurrent.getD 0) (inUse u sub) conc r)[i]? =
+        some ((inUse targets sub).getD ((r + i) % (inUse targets sub).length) 0) :=
+  ⟨targets, forward_build targets, contacted_get _ _ conc r i hi⟩
 
 /-! ## the same statements over the regenerated step of the collection loop (T1) -/
 
@@ -221,6 +272,13 @@ theorem ctx_ends_call_gen (c : Nat) (evs : List Ev) (k : Nat) (hk : k < c) (hev 
 
 example : Refine.C14.collectGen 3 0 [.res (.reply 2 1), .res (.reply 3 2), .res (.reply 0 0)] = .reply 3 2 := by decide
 example : Refine.C14.collectGen 3 0 [.res .fail, .res (.reply 2 1), .res (.reply 5 2)] = .reply 5 2 := by decide
+
+-- two entries that differ in `dial_addr` only (servers 7 and 9), concurrent = 2, start 1: both servers, second first
+example : (build perEntryFact [7, 9]).map (fun u => contacted 3 (inUse u none) 2 1) = some [9, 7] := by decide
+-- tag subset naming entry 1 only, concurrent = 3: server 9 three times, server 7 never
+example : (build perEntryFact [7, 9]).map (fun u => contacted 3 (inUse u (some [1])) 7 0) = some [9, 9, 9] := by decide
+-- what sharing the first entry's upstream would give for the same configuration is a different list
+example : contacted 3 (inUse [7, 7] none) 2 1 ≠ contacted 3 (inUse [7, 9] none) 2 1 := by decide
 
 example : exchange 3 4 7 2 [.res .fail, .res (.reply 2 3), .res (.reply 0 0)] = ([2, 3, 0], .reply 0 0) := by decide
 example : exchange 3 2 3 1 [.res (.reply 2 1), .res .fail, .res (.reply 5 1)] = ([1, 0, 1], .reply 5 1) := by decide
